@@ -428,6 +428,21 @@ func (vc *FuncVC) assumeLemmas(st *State) {
 	if vc.cf != nil {
 		// package-level axioms (listed in the evidence as assumptions)
 		for _, ax := range vc.cf.Axioms {
+			// an axiom named opt_* is assumed only in the functions that name it in `uses`
+			// (every quantified axiom in the context costs the solvers something)
+			if strings.HasPrefix(ax.Name, "opt_") {
+				used := false
+				if vc.fc != nil {
+					for _, u := range vc.fc.Uses {
+						if u == ax.Name {
+							used = true
+						}
+					}
+				}
+				if !used {
+					continue
+				}
+			}
 			env := &SpecEnv{vc: vc, cf: vc.cf, pkg: vc.cf.PkgTypes, vars: map[string]Val{}, oldVars: map[string]Val{}, cur: st, old: st, allocOld: st.Alloc, where: "axiom " + ax.Name}
 			if len(ax.Vars) == 0 {
 				for _, t := range env.BoolParts(ax.C.Expr) {
@@ -455,6 +470,9 @@ func (vc *FuncVC) assumeLemmas(st *State) {
 		return
 	}
 	for _, name := range vc.fc.Uses {
+		if strings.HasPrefix(name, "opt_") {
+			continue // an opt-in axiom, handled above
+		}
 		lf := vc.cf.Funcs["lemma:"+name]
 		if lf == nil {
 			panic(specErr{"uses " + name + ": no such lemma"})
